@@ -69,9 +69,9 @@ def c04_groups(tier):
              bounds='forests %s; referents and class ids symbolic (distinct, < 2^30); all INST / PRNT orders' % [list(s) for s, _ in shapes],
              cases=[dict(what='tree', shape=s, classes=c, meta=True, unknown=len(set(c)) < 3, service=len(set(c)) < 3, row=r) for s, c in shapes for r in range(math.factorial(len(s)))], budget=1500),
         dict(id='M9.prop', desc='PROP column of each wire type written by a spec encoder (docs/binary.md) decodes to bit-identical values under the given name, for unknown classes',
-             bounds='2 instances, every value symbolic (all bit patterns); kinds: %s' % ', '.join(kinds),
+             bounds='2 instances, every value symbolic (all bit patterns), symbolic class id; two classes with symbolic ids in every INST / PROP chunk order; kinds: %s' % ', '.join(kinds),
              cases=[dict(what='prop', kind=k, n=2, opts=KIND_OPTS.get(k, {})) for k in kinds if k != 'Content' and k not in B.NOSPEC] +
-                   [dict(what='prop', kind='Content', n=len(t), opts={'types': t}) for t in ([0, 1], [1, 1], [2, 2], [2, 1, 2])], budget=600),
+                   [dict(what='prop', kind='Content', n=len(t), opts={'types': t}) for t in ([0, 1], [1, 1], [2, 2], [2, 1, 2])] + [dict(what='prop2')], budget=600),
         long_group(),
         dict(id='M9.widen', desc='Int32 column for a property the database declares Int64, Float32 column for one declared Float64: loaded widened exactly (NaN stays NaN)',
              bounds='2 instances, all bit patterns; custom database with class A, property P',
